@@ -15,3 +15,8 @@ import TvUring.Props.C20
 #print axioms TV.C20.earliest_created
 #print axioms TV.C20.build_id_fresh
 #print axioms TV.C20.noop_backlog
+#print axioms TV.C20.reports_exactly_once
+#print axioms TV.C20.waited_exactly_once
+#print axioms TV.C20.drop_handle_releases_exactly_one
+#print axioms TV.C20.holder_unique
+#print axioms TV.C20.stays_parked
